@@ -3,6 +3,7 @@ package wh
 import (
 	"crypto/sha256"
 	"fmt"
+	"strings"
 	"sync"
 
 	"github.com/transparency-dev/witness/verifmc/uni"
@@ -30,13 +31,14 @@ var Shapes = []string{"plain", "ext", "junk1", "otherlog", "stale-own-valid", "s
 //
 //	plain             only the log's signature
 //	ext               two extension lines
+//	bigextK           K KiB (and a little more) of extension lines
 //	junkJ             J signature lines by unknown keys appended
 //	otherlog          an additional valid signature by the other log key
 //	stale-own-valid   carries an older valid cosignature/v1 + legacy signature of the witness
 //	stale-own-invalid carries a corrupted signature line under the witness's name/key hash
 //	dup-logsig        the log's signature line twice
 func (g *CPGen) Get(l LogCfg, b *uni.Branch, n int, shape string) ([]byte, Meta) {
-	key := fmt.Sprintf("%s|%s|%s|%d|%s", l.Origin, l.Key.Name, b.Name, n, shape)
+	key := fmt.Sprintf("%s|%s|%s|%d|%s", l.Origin, KeyID(l.Key.Verif), b.Name, n, shape)
 	g.mu.Lock()
 	if e, ok := g.m[key]; ok {
 		g.mu.Unlock()
@@ -48,10 +50,19 @@ func (g *CPGen) Get(l LogCfg, b *uni.Branch, n int, shape string) ([]byte, Meta)
 	if shape == "ext" {
 		ext = []string{"extension line one 100%sure %d %25", "ext2 " + b.Name + " \u2014 caf\u00e9"}
 	}
+	if strings.HasPrefix(shape, "bigext") {
+		// K KiB of extension lines (legitimate: the checkpoint format allows
+		// them and the note format admits up to ~1 MB).
+		var k int
+		fmt.Sscanf(shape[6:], "%d", &k)
+		for i := 0; len(ext)*512 < k*1024+512; i++ {
+			ext = append(ext, fmt.Sprintf("x%05d %s", i, strings.Repeat(string(rune('a'+i%26)), 504)))
+		}
+	}
 	text := uni.Body(l.Origin, uint64(n), b.Root(n), ext...)
 	cp := u.Sign(text, l.Key.Signer)
 	switch {
-	case shape == "plain" || shape == "ext":
+	case shape == "plain" || shape == "ext" || strings.HasPrefix(shape, "bigext"):
 	case len(shape) > 4 && shape[:4] == "junk":
 		var j int
 		fmt.Sscanf(shape[4:], "%d", &j)
